@@ -57,6 +57,7 @@ def gen_extreme(rng):
     """seams: seeds >= 2**32 (and pairs differing by 2**32), dark rates a hair below a whole electron, counts at the representable limit"""
     t = int(rng.integers(0, 4))
     seed = int(rng.integers(2**32, 2**48)) if rng.integers(0, 2) else int(rng.integers(0, 2**31))
+    if rng.integers(0, 4) == 0: seed = 0
     if t == 0:
         sh = _shape(rng, 3, 10)
         return {'kind': 'power', 'shape': list(sh), 'hole': bool(rng.integers(0, 2)), 'rms': float(rng.choice([1e-12, 5e-9, 1e-3, 10.0])),
@@ -84,6 +85,7 @@ def generate(rng, tier):
     for k in range(n):
         t = k % 10
         seed = int(rng.integers(0, 2**31))
+        if k % 7 == 3: seed = 0          # seed 0 is a seed: it must be as reproducible as any other (a `seed or None` would lose it)
         if t in (0, 1, 2):
             sh = _shape(rng)
             method = 'poisson' if t != 2 else 'gaussian'
